@@ -1,6 +1,7 @@
 from __future__ import annotations
 from collections.abc import Callable
 import logging
+import threading
 from .ldm_constants import (
     DENM,
     DATA_OBJECT_TYPE_ID,
@@ -52,6 +53,8 @@ class InterfaceLDM4:
         self.logging = logging.getLogger("local_dynamic_map")
 
         self.ldm_service = ldm_service
+        # makes the registered-check and the removal of a deregistration one atomic step
+        self._deregistration_lock = threading.Lock()
 
     def check_its_aid(self, its_application_identifier) -> bool:
         """
@@ -139,9 +142,12 @@ class InterfaceLDM4:
             data_consumer.application_id,
         )
 
-        if data_consumer.application_id in self.ldm_service.get_data_consumer_its_aid():
-            self.ldm_service.del_data_consumer_its_aid(
-                data_consumer.application_id)
+        with self._deregistration_lock:
+            registered = data_consumer.application_id in self.ldm_service.get_data_consumer_its_aid()
+            if registered:
+                self.ldm_service.del_data_consumer_its_aid(
+                    data_consumer.application_id)
+        if registered:
             return DeregisterDataConsumerResp(
                 data_consumer.application_id, DeregisterDataConsumerAck(0)
             )
